@@ -642,6 +642,10 @@ attrsLoop:
 
 						u, err := url.Parse(htmlAttr.Val)
 						if err != nil {
+							// Only reached when URL parsing has been switched
+							// off again: nothing says that this link stays on
+							// the site, browsers are more lenient than we are
+							externalLink = true
 							continue
 						}
 						if u.Host != "" {
